@@ -2172,6 +2172,15 @@ class unyt_array(np.ndarray):
                 except AttributeError:
                     # out_arr is an ndarray
                     out.units = Unit("", registry=self.units.registry)
+                if (
+                    mul == 1
+                    and isinstance(out_arr, unyt_array)
+                    and out.shape == out_arr.shape
+                ):
+                    # like NumPy, hand back the out= object itself: callers such as
+                    # np.mean go on working in place on what the first ufunc returned
+                    # and would otherwise update the units of a temporary view only
+                    return out
             elif isinstance(out, tuple):
                 for o, oa in zip(out, out_arr):
                     if not isinstance(o, unyt_array):
